@@ -377,6 +377,25 @@ def check_orphans(cls, rec):
             if f == "foo.ih5" or f.startswith("foo.ih5mf"):
                 os.unlink(os.path.join(d, f))
         case = dict(kind="orphans", cls=cls.__name__)
+        for mode in ("x", "w-"):
+            # leftover patch containers ARE (what is left of) an existing record: the creating modes refuse, like r / r+ / a
+            try:
+                r = cls(p, mode)
+            except Exception:  # noqa: BLE001
+                H.close_leaked_h5()
+                continue
+            r["z"] = 1
+            r.close()
+            try:
+                r = cls(p, "r")
+                r.close()
+            except Exception as e:  # noqa: BLE001
+                H.close_leaked_h5()
+                rec.fail(f"C03:{mode}-over-orphan-patches-unusable", dict(case, mode=mode), f"mode {mode!r} created a base next to leftover patch "
+                         f"containers; reopening by name: {type(e).__name__}: {str(e)[:150]}", "refused (FileExistsError), or a usable record")
+            os.unlink(os.path.join(d, "foo.ih5"))
+            for f in [x for x in os.listdir(d) if x.startswith("foo.ih5mf")]:
+                os.unlink(os.path.join(d, f))
         try:
             r = cls(p, "w")
             r["new"] = 5
@@ -397,6 +416,48 @@ def check_orphans(cls, rec):
         if v != {"/new": 5, "/new2": 6}:
             rec.fail("C03:w-over-orphan-patches-wrong-view", case, v, {"/new": 5, "/new2": 6})
         rec.case(nt_key=case, classes=["w_over_orphan_patches"], sample=case)
+    finally:
+        shutil.rmtree(d, ignore_errors=True)
+
+
+def check_stray_files(cls, rec):
+    """Files next to a record whose names start like the record's but are no containers of it (NAME_raw.ih5 from
+    another tool, NAME.bak.ih5 copied by the user; '_' and '.' cannot occur in record names) do not belong to it:
+    opening by name works, 'w' leaves them alone."""
+    import h5py
+
+    d = H.new_scratch("vt-c03s-")
+    try:
+        r = cls(os.path.join(d, "foo"), "w")
+        r["who"] = "foo"
+        r.commit_patch()
+        r.create_patch()
+        r["v1"] = 1
+        r.close()
+        with h5py.File(os.path.join(d, "foo_raw.ih5"), "w") as f:
+            f["x"] = 1
+        shutil.copy(os.path.join(d, "foo.ih5"), os.path.join(d, "foo.bak.ih5"))
+        stray = {n: recutil.dir_digest(d)[n] for n in ("foo_raw.ih5", "foo.bak.ih5")}
+        case = dict(kind="stray", cls=cls.__name__)
+        for mode in ("r", "r+", "w"):
+            try:
+                r = cls(os.path.join(d, "foo"), mode)
+                v = _view(r)
+                r.close()
+            except Exception as e:  # noqa: BLE001
+                H.close_leaked_h5()
+                rec.fail(f"C03:open-refused:{mode}:stray-files", dict(case, mode=mode), f"{type(e).__name__}: {str(e)[:200]}",
+                         "opens (the other files are not containers of this record)")
+                break
+            if mode != "w" and v != {"/who": "foo", "/v1": 1}:
+                rec.fail(f"C03:view-after-open:{mode}:stray-files", dict(case, mode=mode), v, {"/who": "foo", "/v1": 1})
+            now = recutil.dir_digest(d)
+            ch = sorted(n for n in stray if now.get(n) != stray[n])
+            if ch:
+                rec.fail(f"C03:other-file-touched:{mode}", dict(case, mode=mode), f"{ch} changed / deleted by opening 'foo' with {mode!r}",
+                         "files that are no containers of the record untouched")
+                break
+        rec.case(nt_key=["stray", cls.__name__], classes=["stray_files_next_to_record"], sample=case)
     finally:
         shutil.rmtree(d, ignore_errors=True)
 
@@ -457,6 +518,7 @@ def run_shard(shard, tier, seed, rec):
         for cls in (H.IH5Record, H.IH5MFRecord):
             check_names(cls, rec)
             check_orphans(cls, rec)
+            check_stray_files(cls, rec)
         return
     if shard["kind"] == "matrix":
         cls = H.IH5Record if shard["cls"] == "IH5Record" else H.IH5MFRecord
@@ -502,9 +564,9 @@ def replay(rp, rec):
             finally:
                 shutil.rmtree(fx, ignore_errors=True)
             rec.case()
-        elif case.get("kind") in ("names", "orphans"):
+        elif case.get("kind") in ("names", "orphans", "stray"):
             cls = H.IH5Record if case["cls"] == "IH5Record" else H.IH5MFRecord
-            (check_names if case["kind"] == "names" else check_orphans)(cls, rec)
+            dict(names=check_names, orphans=check_orphans, stray=check_stray_files)[case["kind"]](cls, rec)
         else:
             run_history_case(case, rec, "thorough")
     except Violation as v:
